@@ -45,15 +45,17 @@ func decodeInto(c *vm.Ctx, d *decodeCase, t reflect.Type, plain bool, sub string
 	br := bytes.NewReader(in)
 	pr := &inject.PlainReader{R: bytes.NewReader(in)}
 	var qr *inject.QuirkReader
+	var cr *inject.ChunkReader
 	src := "bytes.Reader"
+	if quirkR == nil {
+		quirkR = c.Rand("quirk")
+	}
+	wrapper := false
 	if plain {
 		rd = pr
 		src = "plain io.Reader"
-		// every fourth plain source uses the liberties of the io.Reader contract: reads that make no progress,
-		// and the last byte delivered together with io.EOF
-		if quirkR == nil {
-			quirkR = c.Rand("quirk")
-		}
+		// some plain sources use the liberties of the io.Reader contract: reads that make no progress, the last
+		// byte delivered together with io.EOF, and reads that return fewer bytes than asked for
 		switch quirkR.Intn(8) {
 		case 0:
 			qr = &inject.QuirkReader{B: in, Stutter: true}
@@ -63,18 +65,41 @@ func decodeInto(c *vm.Ctx, d *decodeCase, t reflect.Type, plain bool, sub string
 			qr = &inject.QuirkReader{B: in, DataEOF: true}
 			rd, src = qr, "plain io.Reader delivering data with EOF"
 			c.Cover("src.plainreader.data-with-eof")
+		case 2, 3:
+			cr = &inject.ChunkReader{B: in, Plan: []int{1, 2, 3, 7}}
+			rd, src = cr, "plain io.Reader returning 1,2,3,7,... bytes per read (short reads)"
 		}
 	} else {
 		rd = br
+		// the documented shortcut nbt.Unmarshal(data, v): file format only; it reports neither the root name nor
+		// how much it read, so only the error and the value are observed
+		wrapper = !d.network && quirkR.Intn(4) == 0
+		if wrapper {
+			src = "nbt.Unmarshal"
+		}
 	}
 	panicked = c.Guard(sub, func() any { return d.witness(t.String(), src) }, func() {
+		if wrapper {
+			name, err = d.name, nbt.Unmarshal(in, ptr.Interface())
+			return
+		}
 		dec := nbt.NewDecoder(rd)
 		dec.NetworkFormat(d.network)
 		name, err = dec.Decode(ptr.Interface())
 	})
 	switch {
+	case wrapper:
+		consumed = len(d.doc)
+		if err == nil && !panicked {
+			c.Cover("decode.via-Unmarshal")
+		}
 	case qr != nil:
 		consumed = qr.Pos
+	case cr != nil:
+		consumed = cr.Pos
+		if err == nil && !panicked && consumed == len(d.doc) {
+			c.Cover("src.plainreader.short-reads")
+		}
 	case plain:
 		consumed = int(pr.N)
 	default:
@@ -144,7 +169,7 @@ func checkDecode(c *vm.Ctx, r *vm.Rand, d *decodeCase, feats map[string]bool) {
 		if d.network && name != "" {
 			c.Violation(sub+"/root-name-network", fmt.Sprintf("network format returned root name %q", name), w())
 		}
-		if diff := gotypes.MatchGo(rv, d.tree, "$"); diff != "" {
+		if diff := gotypes.MatchGoFresh(rv, d.tree, "$"); diff != "" {
 			c.Violation(sub+"/value-mismatch/"+firstFeature(diff), "decoded value differs from the document: "+diff, w())
 		}
 		c.Cover("decode." + tg.name + "." + fmtName)
@@ -154,13 +179,20 @@ func checkDecode(c *vm.Ctx, r *vm.Rand, d *decodeCase, feats map[string]bool) {
 		{
 			d2 := &decodeCase{tree: nbtgen.Shrink(r, d.tree), name: d.name, network: d.network, trailer: d.trailer}
 			d2.doc = refnbt.Encode(d2.tree, d2.name, d2.network)
-			for step, dc := range []*decodeCase{d2, d} {
+			steps := []*decodeCase{d2, d}
+			if !gotypes.Fits(tg.t, d2.tree) {
+				// the receiver has a fixed-size array somewhere and the shorter document's byte / int / long array
+				// has another length: it cannot hold that document (the first document once more it can)
+				steps = []*decodeCase{d}
+				c.Cover("decode.reused-receiver.shorter-document-does-not-fit-array")
+			}
+			for step, dc := range steps {
 				in := append(append([]byte{}, dc.doc...), dc.trailer...)
 				br := bytes.NewReader(in)
 				var err2 error
 				w2 := func() any {
 					m := dc.witness(tg.t.String(), "bytes.Reader")
-					m["receiver_previously_decoded_hex"] = vm.Hex(map[bool][]byte{true: d.doc, false: d2.doc}[step == 0])
+					m["receiver_previously_decoded_hex"] = vm.Hex(map[bool][]byte{true: d.doc, false: d2.doc}[step == 0 || len(steps) == 1])
 					return m
 				}
 				if c.Guard(sub+"/reused-receiver", w2, func() {
@@ -233,7 +265,7 @@ func checkDecode(c *vm.Ctx, r *vm.Rand, d *decodeCase, feats map[string]bool) {
 
 // firstFeature derives a short stable class from a diff text (kind of mismatch).
 func firstFeature(diff string) string {
-	for _, k := range []string{"nil pointer", "nil interface", "heterogeneous", "unexpected dynamic type", "list element tag", "tag ", "len ", "key ", "keys", "field without", "float32", "float64", "double bits", "float bits", "string", "bool", "uint", "int", "byte arrays", "compound size"} {
+	for _, k := range []string{"nil pointer", "nil interface", "heterogeneous", "unexpected dynamic type", "list element tag", "tag ", "array len", "len ", "key ", "keys", "field without", "float32", "float64", "double bits", "float bits", "string", "bool", "uint", "int", "byte arrays", "compound size"} {
 		if bytes.Contains([]byte(diff), []byte(k)) {
 			return k
 		}
@@ -425,14 +457,24 @@ func checkEncode(c *vm.Ctx, g *gotypes.Gen) {
 	var buf bytes.Buffer
 	var err error
 	byPtr := r.Bool()
+	// the documented shortcut nbt.Marshal(v): file format with an empty root name
+	wrapper := !network && name == "" && r.Bool()
 	pan := c.Guard("enc", wit, func() {
+		var arg any
+		if byPtr {
+			arg = v.Addr().Interface()
+		} else {
+			arg = v.Interface()
+		}
+		if wrapper {
+			var b []byte
+			b, err = nbt.Marshal(arg)
+			buf.Write(b)
+			return
+		}
 		enc := nbt.NewEncoder(&buf)
 		enc.NetworkFormat(network)
-		if byPtr {
-			err = enc.Encode(v.Addr().Interface(), name)
-		} else {
-			err = enc.Encode(v.Interface(), name)
-		}
+		err = enc.Encode(arg, name)
 	})
 	key := vm.HashStr("enc", t.String(), valStr)
 	c.Eval(key, t.Kind() == reflect.Struct || t.Kind() == reflect.Slice || t.Kind() == reflect.Map)
@@ -440,6 +482,20 @@ func checkEncode(c *vm.Ctx, g *gotypes.Gen) {
 		return
 	}
 	if unsup != "" {
+		// the mapping says nothing about this value (a nil pointer in a list, a slice of pointers to ints, ...):
+		// the encoder may refuse it; what it ACCEPTS must still come out as one well-formed document
+		if err == nil {
+			_, _, used, perr := refnbt.Parse(buf.Bytes(), network)
+			if perr != nil || used != buf.Len() {
+				w := wit().(map[string]any)
+				w["not_described_by_mapping"] = unsup
+				c.Violation("enc/accepted-but-malformed/unsupported-by-mapping", fmt.Sprintf("the encoder reported success but its output is not one well-formed document: %v (used %d of %d bytes); bytes %s", perr, used, buf.Len(), vm.Hex(buf.Bytes())), w)
+				return
+			}
+			c.Cover("enc.unsupported-by-mapping.accepted-well-formed")
+		} else {
+			c.Cover("enc.unsupported-by-mapping.refused")
+		}
 		c.Cover("enc.unsupported-by-mapping")
 		return
 	}
@@ -467,6 +523,9 @@ func checkEncode(c *vm.Ctx, g *gotypes.Gen) {
 		c.Cover("enc." + f)
 	}
 	c.Cover("enc.root." + refnbt.TagName(tree.Tag))
+	if wrapper {
+		c.Cover("enc.via-Marshal")
+	}
 	c.Sample("encode", map[string]any{"go_type": t.String(), "bytes": vm.Hex(buf.Bytes())})
 }
 
@@ -493,6 +552,7 @@ func run(c *vm.Ctx) {
 	cfg.FoldKeys = true
 	g := nbtgen.New(r, cfg)
 	nDocs := c.Scale(20000, 400000)
+	sr := c.Rand("streams")
 	for i := 0; i < nDocs; i++ {
 		var root byte
 		if i < 48 {
@@ -530,6 +590,12 @@ func run(c *vm.Ctx) {
 			n, kinds := refnbt.Count(tree)
 			c.Eval(vm.Hash64(d.doc), n >= 3 && popcount(kinds) >= 2)
 			checkDecode(c, r, d, g.Features)
+			switch sr.Intn(16) {
+			case 0, 1:
+				checkStream(c, sr, d, false)
+			case 2:
+				checkStream(c, sr, d, true)
+			}
 			if i < 2 {
 				c.Sample("decode", map[string]any{"doc_hex": vm.Hex(d.doc), "network": network, "tree": refnbt.Describe(tree)})
 			}
@@ -545,6 +611,13 @@ func run(c *vm.Ctx) {
 	}
 	if c.Shard == 0 {
 		checkBigArrays(c, c.Rand("big-arrays"))
+	}
+	if c.Shard == 1%c.NShards {
+		checkManySiblings(c, c.Rand("siblings"))
+	}
+	str := c.Rand("static")
+	for i := 0; i < c.Scale(400, 8000); i++ {
+		checkStatic(c, str)
 	}
 	ar := c.Rand("awkward")
 	for i := 0; i < c.Scale(2000, 20000); i++ {
